@@ -32,3 +32,116 @@ Example C11_static_nonvacuous :
   Forall req_ok [(13, 10); (13, 10); (13, 14)] /\ static_allocs 0 100 [(13, 10); (13, 10); (13, 14)] = AOk [0; 20; 42].
 Proof. split; [repeat constructor; cbv; auto; discriminate | reflexivity]. Qed.
 Print Assumptions C11_static_nonvacuous.
+
+(* ================================================================================ *)
+From Snax Require Import Proofs.TslProofs Proofs.C11SizeProofs Model.C11Life Proofs.C11LifeProofs.
+
+(* size_bounds_layout: for every static layout with positive bounds and non-negative steps (any rank, depth,
+   gaps, padding, offset) and every element width, the bytes requested by memref-to-snax are exactly
+   offset*el + (largest address)*el + el, and every element of the layout's index box ends inside them *)
+Theorem C11_size_bounds_layout : forall el l dims sz, layout_posb l = true -> 0 <= el ->
+  size_tsl el l dims = Some sz ->
+  exists off, offset l = Some off /\ sz = off * el + max_addr l * el + el /\
+  forall idx, Forall2 (fun i n => 0 <= i < n) idx (shape_of l) ->
+    0 <= affine_map_eval l idx /\ off * el + affine_map_eval l idx * el + el <= sz.
+Proof. intros el l dims sz H. exact (size_bounds_layout el l dims sz (layout_posb_ok l H)). Qed.
+Print Assumptions C11_size_bounds_layout.
+
+(* no layout attribute: el * prod(shape) = (largest row-major index)*el + el, static and dynamic dims alike *)
+Theorem C11_size_none_exact : forall el shape, size_none el shape = (zprod shape - 1) * el + el.
+Proof. exact size_none_exact. Qed.
+Print Assumptions C11_size_none_exact.
+
+(* size_dynamic_partial: dynamic outermost bounds (static steps) under tile divisibility *)
+Theorem C11_size_dynamic_partial : forall el l dims sz, steps_static l -> 0 <= el ->
+  layout_posb (inst_layout l dims) = true -> shape_of (inst_layout l dims) = dims ->
+  size_tsl el l dims = Some sz ->
+  exists off, offset l = Some off /\
+  forall idx, Forall2 (fun i n => 0 <= i < n) idx dims ->
+    off * el + affine_map_eval (inst_layout l dims) idx * el + el <= sz.
+Proof. intros el l dims sz Hs Hel Hp. exact (size_dynamic_partial el l dims sz Hs Hel (layout_posb_ok _ Hp)). Qed.
+Print Assumptions C11_size_dynamic_partial.
+
+(* non-vacuity of the dynamic case: memref<8x?xi32, [2, 4] -> (64, 4), [?, 4] -> (16, 1), offset 3> with dim 12 *)
+Example C11_size_dynamic_nonvacuous :
+  let l := mkLayout [[(Some 64, Some 2); (Some 4, Some 4)]; [(Some 16, None); (Some 1, Some 4)]] (Some 3) in
+  steps_static l /\ layout_posb (inst_layout l [8; 12]) = true /\ shape_of (inst_layout l [8; 12]) = [8; 12] /\
+  size_tsl 4 l [8; 12] = Some 460.
+Proof. repeat split; try reflexivity. repeat constructor; discriminate. Qed.
+Print Assumptions C11_size_dynamic_nonvacuous.
+
+(* size_dynamic_refuted (finding F10, confirmed on the real pass): without tile divisibility the floor of
+   dim / prod(inner bounds) loses the last partial tile: memref<?xi64, [?, 2] -> (7, 4)> with run-time dim 3
+   is given 40 bytes, but element 2 (inside the memref) ends at byte 64 *)
+Theorem C11_size_dynamic_refuted : exists el l dims sz idx,
+  steps_static l /\ size_tsl el l dims = Some sz /\
+  Forall2 (fun i n => 0 <= i < n) idx dims /\
+  sz < affine_map_eval (inst_layout l dims) idx * el + el.
+Proof.
+  exists 8, (mkLayout [[(Some 7, None); (Some 4, Some 2)]] (Some 0)), [3], 40, [2].
+  repeat split; try reflexivity; try (repeat constructor; (discriminate || lia)).
+Qed.
+Print Assumptions C11_size_dynamic_refuted.
+
+(* lifetime_covers_direct: a direct use of the alloc result is never after end_time *)
+Theorem C11_lifetime_covers_direct : forall prog a o,
+  In o prog -> In (res0 a) (o_ops o) -> (o_top a <= end_time prog a /\ o_top o <= end_time prog a)%nat.
+Proof. intros prog a o H1 H2. split; [apply end_time_ge_start|exact (lifetime_covers_direct prog a o H1 H2)]. Qed.
+Print Assumptions C11_lifetime_covers_direct.
+
+(* lifetime_covers_views (after the repair of F11): every use of the buffer or of any view / cast of it,
+   transitively, nested or not, lies inside the interval handed to the solver *)
+Theorem C11_lifetime_covers_views : forall prog a o,
+  alias_followed prog = true -> In o prog ->
+  uses_any o (closure aliased prog [res0 a]) = true -> (o_top o <= end_time prog a)%nat.
+Proof. exact lifetime_covers_views. Qed.
+Print Assumptions C11_lifetime_covers_views.
+
+(* minimalloc_safe: for EVERY solver that honours the contract (overlapping half-open lifetimes => disjoint
+   ranges; aligned; inside capacity), two different buffers of a memory space that are live at the same
+   top-level index never overlap *)
+Theorem C11_minimalloc_safe : forall (solve : list buffer -> Z -> option (list Z)) prog m cap offs,
+  solve_contract solve -> wf_prog prog = true ->
+  solve (buffers_in prog m) cap = Some offs ->
+  forall i j a1 a2 o1 o2 t, i <> j ->
+    nth_error (allocs_in prog m) i = Some a1 -> nth_error (allocs_in prog m) j = Some a2 ->
+    nth_error offs i = Some o1 -> nth_error offs j = Some o2 ->
+    live prog a1 t -> live prog a2 t ->
+    (o1 + o_size a1 <= o2 \/ o2 + o_size a2 <= o1) /\
+    0 <= o1 /\ o1 + o_size a1 <= cap /\ (0 < o_align a1 -> o1 mod o_align a1 = 0).
+Proof. exact minimalloc_safe. Qed.
+Print Assumptions C11_minimalloc_safe.
+
+(* the probe program notes/probe_c11_subview_lifetime.mlir as abstract use-list program:
+   %2 alloc, %3 cast, %v subview of %3, use %3, %4 alloc, %5 cast, use %5, use (%v, %5) *)
+Definition probe_f11 : list aop :=
+  [ mkOp KOther 0 [] [(1%nat, false)] false 0 0 0; mkOp KOther 1 [] [(2%nat, false)] false 0 0 0;
+    mkOp KAlloc 2 [2%nat; 1%nat; 1%nat] [(3%nat, false)] false 64 1 0;
+    mkOp KCast 3 [3%nat] [(4%nat, true)] true 0 0 0;
+    mkOp KOther 4 [4%nat] [(5%nat, true)] true 0 0 0;            (* memref.subview *)
+    mkOp KOther 5 [4%nat] [] false 0 0 0;
+    mkOp KAlloc 6 [2%nat; 1%nat; 1%nat] [(6%nat, false)] false 64 1 0;
+    mkOp KCast 7 [6%nat] [(7%nat, true)] true 0 0 0;
+    mkOp KOther 8 [7%nat] [] false 0 0 0;
+    mkOp KOther 9 [5%nat; 7%nat] [] false 0 0 0;
+    mkOp KOther 10 [] [] false 0 0 0 ].
+
+(* non-vacuity + the repaired behaviour on the probe: both buffers are live at index 9 and their lifetimes
+   now overlap ([2,9] and [6,9]) *)
+Example C11_probe_after_fix :
+  wf_prog probe_f11 = true /\
+  buffers probe_f11 = [mkBuf 2 9 64 1; mkBuf 6 9 64 1].
+Proof. split; reflexivity. Qed.
+Print Assumptions C11_probe_after_fix.
+
+(* lifetime_covers_views_refuted for the analysis BEFORE the repair (direct uses + one level of cast):
+   the first buffer's interval ended at 5 although its subview is used at 9, so the two lifetimes
+   [2,5) and [6,9) did not overlap and a correct solver may hand out the same range (it did: address 0) *)
+Theorem C11_lifetime_covers_views_refuted_before_fix : exists prog a o,
+  wf_prog prog = true /\ In a (allocs prog) /\ In o prog /\
+  uses_any o (closure aliased prog [res0 a]) = true /\ (end_time_old prog a < o_top o)%nat.
+Proof.
+  exists probe_f11, (mkOp KAlloc 2 [2%nat; 1%nat; 1%nat] [(3%nat, false)] false 64 1 0), (mkOp KOther 9 [5%nat; 7%nat] [] false 0 0 0).
+  repeat split; try reflexivity; cbn; auto 12. 
+Qed.
+Print Assumptions C11_lifetime_covers_views_refuted_before_fix.
